@@ -42,10 +42,19 @@ proof fn flags400_facts(ym: int)
 { unimplemented!() }
 ''' % contracts['flags400_facts'])
     u.assumed.append('flags400_facts')
-    u.const(F, 'MAX_YEAR', replace=("const MAX_YEAR: i32 = (i32::MAX >> 13) - 1;",
-            "exec const MAX_YEAR: i32 ensures MAX_YEAR == 262142 { assert(i32::MAX >> 13u32 == 262143i32) by(bit_vector); (i32::MAX >> 13) - 1 }"))
-    u.const(F, 'MIN_YEAR', replace=("const MIN_YEAR: i32 = (i32::MIN >> 13) + 1;",
-            "exec const MIN_YEAR: i32 ensures MIN_YEAR == -262143 { assert(i32::MIN >> 13u32 == -262144i32) by(bit_vector); (i32::MIN >> 13) + 1 }"))
+    # MIN_YEAR / MAX_YEAR: the value stated in the property text is a plain const for the other functions; the real
+    # initialiser expression (which uses >>, not allowed in Verus consts) is extracted into a function whose result is an obligation
+    import re as _re
+    from unit import src as _src
+    from xtract import clean_const as _cc, AnchorLost as _AL
+    for cname, val, hint in (('MAX_YEAR', '262142', 'assert(i32::MAX >> 13u32 == 262143i32) by(bit_vector);'),
+                             ('MIN_YEAR', '-262143', 'assert(i32::MIN >> 13u32 == -262144i32) by(bit_vector);')):
+        t = _cc(_src(F).const(cname))
+        m = _re.match(r'const %s: i32 = (.*);$' % cname, t, flags=_re.S)
+        if not m:
+            raise _AL('const %s shape' % cname)
+        u.raw('const %s: i32 = %s;\nfn %s__value() -> (r: i32) ensures r == %s { %s %s }' % (cname, val, cname, cname, hint, m.group(1)))
+        u.items.append(dict(name='const ' + cname, kind='exec', emitted=cname + '__value', file=F, line=0))
     u.const(F, 'ORDINAL_MASK')
     u.const(F, 'LEAP_YEAR_MASK')
     u.const(F, 'OL_MASK', replace=("const OL_MASK: i32 = ORDINAL_MASK | LEAP_YEAR_MASK;", "const OL_MASK: i32 = 0b1_1111_1111_1000;"))
